@@ -57,10 +57,13 @@ deriving Repr, DecidableEq
 /-- a key padded with zeros / truncated to 9 bytes -/
 def fit9 (k : Bytes) : Bytes := if k.length ≥ 9 then k.take 9 else k ++ List.replicate (9 - k.length) 0
 
+/-- the content-key field as `write_to` stores it: 9 bytes of the key, zeros for a file without one -/
+def ckeyField (f : FileRec) : Bytes := match f.ckey with | some c => fit9 c | none => List.replicate 9 0
+
 /-- `ContainerEntry::write_to` for a builder entry (`patch_offset: None`) -/
 def cftWrite (h : Hdr) (f : FileRec) : Bytes :=
   fit9 f.ekey ++ be32 f.esize ++
-  (if h.fl.ckey then (match f.ckey with | some c => fit9 c | none => List.replicate 9 0) else []) ++
+  (if h.fl.ckey then ckeyField f else []) ++
   (if h.fl.est then beN h.estOffs (f.est.getD 0) else []) ++
   (if h.fl.patch then beN h.cftOffs 0 else [])
 
@@ -142,21 +145,33 @@ structure Built where
   est : List Bytes
 deriving Repr
 
+/-- `self.files.sort_by(|a, b| a.path.cmp(&b.path))` -/
+def sortFiles (input : List FileRec) : List FileRec := input.mergeSort (fun a b => lexLe a.path b.path)
+
+/-- the EST bytes: only with ENCODING_SPEC and at least one string -/
+def estBytes (fl : Flags) (specs : List Bytes) : Option Bytes :=
+  if fl.est && !specs.isEmpty then some (specs.flatMap (· ++ [0])) else none
+
+/-- the builder's header and container entry size for `n` files: EST size first, then the widening
+loop from `cft_table_size = 0` -/
+def layout (fl : Flags) (estSize n : Nat) : Hdr × Nat :=
+  widen n 4 { fl := fl, cftSize := 0, estSize := estSize } ({ fl := fl, cftSize := 0, estSize := estSize } : Hdr).entrySize
+
 /-- `TvfsBuilder::with_flags(flags)` + `add_est_spec`* + `add_file`/`add_file_with_est`* → `build`
 → `TvfsFile::parse` -/
 def buildParse (flags : Nat) (specs : List Bytes) (input : List FileRec) : Except BErr Built :=
-  let files := input.mergeSort (fun a b => lexLe a.path b.path)
+  let files := sortFiles input
   let fl := Flags.ofNat flags
-  let n := files.length
-  -- EST: only with ENCODING_SPEC and at least one string
-  let estData : Option Bytes := if fl.est && !specs.isEmpty then some (specs.flatMap (· ++ [0])) else none
-  let h0 : Hdr := { fl := fl, cftSize := 0, estSize := (estData.map (·.length)).getD 0 }
-  let (h1, entry) := widen n 4 h0 h0.entrySize
+  let estData := estBytes fl specs
+  let lay := layout fl ((estData.map (·.length)).getD 0) files.length
+  let h1 := lay.1
+  let entry := lay.2
   let w := h1.cftOffs
-  let spanWire := 1 + 4 + 4 + w
+  -- one VFS entry per file: span_count(1) + file_offset(4) + span_length(4) + cft_offset(w)
+  let spanWire := 9 + w
   let root := files.zipIdx.foldl (fun r (f, i) => insertPath (splitPath f.path) (i * spanWire) r) (.mk [] [] none)
   let pathData := buildDir root.children
-  let vfsData := files.zipIdx.flatMap fun (f, i) => vfsWrite w f.csize (i * entry)
+  let vfsData := files.zipIdx.flatMap fun p => vfsWrite w p.1.csize (p.2 * entry)
   -- the container table is serialized under the builder's header, its length becomes
   -- `cft_table_size`, and `TvfsFile::build` serializes it again under THAT header
   let h2 : Hdr := { h1 with cftSize := (files.flatMap (cftWrite h1)).length }
